@@ -45,7 +45,26 @@ func optSets() []optSet {
 	return out
 }
 
+// oneByte delivers its data one byte per Read call.
+type oneByte struct {
+	b []byte
+	i int
+}
+
+func (o *oneByte) Read(p []byte) (int, error) {
+	if o.i >= len(o.b) {
+		return 0, io.EOF
+	}
+	if len(p) == 0 {
+		return 0, nil
+	}
+	p[0] = o.b[o.i]
+	o.i++
+	return 1, nil
+}
+
 type checker struct {
+	ob     oneByte
 	sets   []optSet
 	p      refjson.Parser
 	dec    *jsontext.Decoder
@@ -148,6 +167,33 @@ func (c *checker) one(b []byte, s *optSet) (msg string) {
 	if err == io.EOF && tops != wantValues {
 		return fmt.Sprintf("ReadValue loop: %d top-level values, reference %d", tops, wantValues)
 	}
+	// 4b. the same two decoder routes fed one byte per Read (every token straddles a read boundary)
+	c.ob = oneByte{b: b}
+	c.dec.Reset(&c.ob, s.opts...)
+	_, err = c.dec.ReadValue()
+	got = false
+	if err == nil {
+		_, err2 := c.dec.ReadToken()
+		got = err2 == io.EOF
+	}
+	if got != want {
+		return fmt.Sprintf("one-byte reader: ReadValue+EOF accepted=%v (err=%v), reference=%v", got, err, want)
+	}
+	c.ob = oneByte{b: b}
+	c.dec.Reset(&c.ob, s.opts...)
+	tops = 0
+	for {
+		_, err = c.dec.ReadToken()
+		if err != nil {
+			break
+		}
+		if c.dec.StackDepth() == 0 {
+			tops++
+		}
+	}
+	if (err == io.EOF) != wantStream || (err == io.EOF && tops != wantValues) {
+		return fmt.Sprintf("one-byte reader: ReadToken loop io.EOF=%v (err=%v) values=%d, reference stream-valid=%v values=%d", err == io.EOF, err, tops, wantStream, wantValues)
+	}
 	// 5. Unmarshal into any
 	var v any
 	err = jsonv2.Unmarshal(b, &v, s.jopts...)
@@ -233,7 +279,7 @@ func Replay(r *evid.Run, raw json.RawMessage) {
 }
 
 func Run(r *evid.Run) {
-	r.Rule("every string of each alphabet view up to its length bound (all distinct by construction) x 4 Allow* option sets x 5 entry points (IsValid, ReadValue+EOF, ReadToken loop, ReadValue loop, Unmarshal into any) compared with the reference recognizer; plus name grids around the 64-name / 1KiB namespace switch with a duplicate at every ordered pair. evaluations counts (string, option set); distinct_nontrivial counts distinct strings of >=2 bytes that are viable prefixes of JSON (the grammar's neighbourhood)")
+	r.Rule("every string of each alphabet view up to its length bound (all distinct by construction) x 4 Allow* option sets x 7 entry points (IsValid, ReadValue+EOF, ReadToken loop, ReadValue loop, the first two again through a one-byte-per-Read reader, Unmarshal into any) compared with the reference recognizer; plus name grids around the 64-name / 1KiB namespace switch with a duplicate at every ordered pair, and the same wide object repeated as sibling element / next stream value / sibling member (stale namespace state). evaluations counts (string, option set); distinct_nontrivial counts distinct strings of >=2 bytes that are viable prefixes of JSON (the grammar's neighbourhood)")
 	r.Assume("reference recognizer internal/refjson (cross-checked against encoding/json.Valid on every enumerated string)", "Go runtime")
 	lens := views.ForTier(r.Tier)
 	vs := views.Views(lens)
@@ -268,12 +314,12 @@ func nameGrids(r *evid.Run) {
 	fams := []fam{
 		{"short-names", rng(60, 70), func(i int) string { return fmt.Sprintf("n%d", i) }},
 		{"1KiB-names", rng(60, 70), func(i int) string { return fmt.Sprintf("%s%02d", long, i) }}, // 16 bytes per name: 1024 bytes after 64 names
-		{"long-few", rng(8, 12), func(i int) string { return fmt.Sprintf("%s%02d", strings.Repeat("y", 100), i) }},
+		{"long-few", rng(9, 15), func(i int) string { return fmt.Sprintf("%s%02d", strings.Repeat("y", 100), i) }},
 	}
 	if r.Tier == "quick" {
 		fams[0].ns = []int{63, 64, 65, 66, 67}
 		fams[1].ns = []int{63, 64, 65, 66}
-		fams[2].ns = []int{10, 11}
+		fams[2].ns = []int{11, 12, 13}
 	}
 	type unit struct {
 		f fam
@@ -315,7 +361,20 @@ func nameGrids(r *evid.Run) {
 				bb.WriteByte('}')
 				return bb.Bytes()
 			}
-			c.all(r, build(-1, -1, 0))
+			o := build(-1, -1, 0)
+			c.all(r, o)
+			// siblings: the same names must be usable again in a sibling / following object (stale namespace state)
+			cat := func(parts ...[]byte) []byte { return bytes.Join(parts, nil) }
+			c.all(r, cat([]byte("["), o, []byte(","), o, []byte("]")))
+			c.all(r, cat(o, []byte("\n"), o))
+			c.all(r, cat([]byte(`{"p":`), o, []byte(`,"q":`), o, []byte("}")))
+			c.all(r, cat([]byte(`{"p":`), o, []byte(`,"p":`), o, []byte("}")))
+			for i := 0; i < n; i++ {
+				one := []byte(fmt.Sprintf(`{"%s":1,"z":2}`, names[i]))
+				c.all(r, cat([]byte("["), o, []byte(","), one, []byte("]")))
+				c.all(r, cat([]byte("["), o, []byte(","), one[:len(one)-1], []byte(fmt.Sprintf(`,"%s":3}]`, names[i]))))
+				w.Beat()
+			}
 			for j := 1; j < n; j++ {
 				for i := 0; i < j; i++ {
 					for sp := 0; sp < 2; sp++ {
